@@ -7,6 +7,7 @@
     every run (translators/fmtbuf.py -> TVGen.Gen_fmtbuf.clear_policy, used by Fmt/RecordEval.v for the
     correspondence); the theorems below hold for every policy, with the hypothesis [NoAbortedFormat]
     needed exactly for [ClearAfterOnly]. *)
+From Coq Require Import String.
 From TV Require Import Fmt.RecordModel Fmt.BufferProofs Fmt.WriterProofs Fmt.RecordProofs.
 From TVGen Require Gen_fmtbuf.
 Local Open Scope N_scope.
@@ -121,18 +122,28 @@ Theorem C13_thread_sinks : forall c f o sc w th ops,
 Proof. exact thread_sinks. Qed.
 Print Assumptions C13_thread_sinks.
 
-(** (c) Record content, Full and Compact.  PARTIAL: Pretty (multi-line by design) and JSON (C14) are not
-    modelled at byte level — for them the oracle checks token containment on the implementation only; the
-    event's scope and the Debug text of the values are inputs (C06 / std).
-    A completed record is the concatenation of the renderings of the specified tokens ... *)
-Theorem C13_content_partial : forall f o th m sc fl fs, ok_fields fl = Some fs ->
+(** (c) Record content.  Full, Compact and Pretty are modelled byte for byte (Fmt/RecordModel.v) for EVERY
+    combination of the options the model has: timer on/off (one opaque "TIME" token), level, thread name, thread id,
+    target, file, line number, span events new/enter/exit/close (lifecycle records), any scope depth, any number of
+    fields, span fields given at creation and recorded later.  Outside the byte model (RecordModel.v header): ANSI
+    escapes ([with_ansi(true)]; stripped by the driver before comparison), real timers, [with_source_location(false)],
+    the tracing-log normalisation, custom [FormatFields] / [FormatEvent], thread names of different widths.
+    The event's scope (C06) and the [Debug] / [Display] text of the values are inputs.
+    JSON is not re-proved here: the clauses are C14's theorems over Fmt/Json*.v — one line [C14_single_line],
+    [C14_run_lines_parse]; level [C14_lifecycle_record_content] / the [level] entry of [event_entries]; every event field
+    with its value [C14_fields_faithful_event], [C14_fields_nested], [C14_fields_flat]; spans root -> leaf with their fields
+    [C14_span_list], [C14_span_is_scope_leaf], [C14_scope_root_to_leaf], [C14_fields_faithful_span]; one record per event
+    [C14_event_writes_one_record].
+
+    Full / Compact: a completed record IS the concatenation of the renderings of the specified tokens ... *)
+Theorem C13_content_full_compact : forall f o th m sc fl fs, ok_fields fl = Some fs ->
   format_event f o th (Em m sc fl) = OOk (concat (map (render_tok f) (tokens_spec f o th m sc fs))).
 Proof. exact content_tokens. Qed.
-Print Assumptions C13_content_partial.
+Print Assumptions C13_content_full_compact.
 
-(** ... which name the level, every span in scope root -> leaf with its fields (Compact, as documented:
-    only the fields), every event field with its value in order, and end with the one newline token. *)
-Theorem C13_content_names_everything_partial : forall f o th m sc fs,
+(** ... which name the level, every span in scope root -> leaf with its fields (Compact, as documented: only the
+    fields), every event field with its value in order, and end with the one newline token. *)
+Theorem C13_record_names_everything_full_compact : forall f o th m sc fs,
   let toks := tokens_spec f o th m sc fs in
   (o_level o = true -> In (TLevel (e_level m)) toks)
   /\ filter is_span_tok toks = match f with
@@ -142,15 +153,78 @@ Theorem C13_content_names_everything_partial : forall f o th m sc fs,
   /\ filter is_field_tok toks = field_toks true fs
   /\ exists pre, toks = pre ++ [TNewline] /\ ~ In TNewline pre.
 Proof. exact tokens_name_everything. Qed.
-Print Assumptions C13_content_names_everything_partial.
+Print Assumptions C13_record_names_everything_full_compact.
 
-(** Exactly one line: no input text with a raw newline (the property's exclusion) -> the record is
-    [body ++ "\n"] with no newline in [body]. *)
-Theorem C13_single_line_partial : forall f o th m sc fl fs, ok_fields fl = Some fs ->
+(** "with its fields": a span's formatted fields name every field given at creation, then every field recorded
+    later, in order ([groups_ftoks]: one token per field; [s_groups]: the creation group, then one group per
+    [record] call) — DefaultFields (Full / Compact) and Pretty's field formatter. *)
+Theorem C13_span_fields_name_every_field : forall s,
+  (span_fields s = concat (map render_ftok (groups_ftoks [] (s_groups s)))
+   /\ ftok_fields (groups_ftoks [] (s_groups s)) = concat (s_groups s))
+  /\ (p_span_fields s = concat (map render_pftok (p_groups_ftoks [] (s_groups s)))
+      /\ pftok_fields (p_groups_ftoks [] (s_groups s)) = concat (s_groups s)).
+Proof. intros s. split; [apply span_fields_names_every_field | apply pretty_span_fields_names_every_field]. Qed.
+Print Assumptions C13_span_fields_name_every_field.
+
+(** Exactly one line (the property names full, compact and JSON for this clause): no input text with a raw newline
+    (the property's exclusion) -> the record is [body ++ "\n"] with no newline in [body]. *)
+Theorem C13_single_line_full_compact : forall f o th m sc fl fs, ok_fields fl = Some fs ->
   inputs_nl_free th m sc fs = true ->
   exists body, format_event f o th (Em m sc fl) = OOk (body ++ [10]) /\ has10 body = false.
 Proof. exact single_line. Qed.
-Print Assumptions C13_single_line_partial.
+Print Assumptions C13_single_line_full_compact.
+
+(** A configured span lifecycle point is the record of an event called "new" / "enter" / "exit" / "close" (with the two
+    durations when a timer is configured), in the span's own scope, with the span's metadata — all three formats. *)
+Theorem C13_lifecycle_record_content : forall o th sc timing k m scope, lifecycle_on sc k = true ->
+  (forall f, exists em, expand sc timing (OpSpan k m scope) = [em]
+     /\ format_event f o th em = OOk (concat (map (render_tok f) (tokens_spec f o th m scope (lifecycle_fields k timing)))))
+  /\ (exists em, expand sc timing (OpSpan k m scope) = [em]
+     /\ format_event_pretty o th em = OOk (concat (map render_ptok (ptokens_spec o th m scope (lifecycle_fields k timing))))).
+Proof.
+  intros. split; [intros f; apply lifecycle_record_content; assumption | apply pretty_lifecycle_record_content; assumption].
+Qed.
+Print Assumptions C13_lifecycle_record_content.
+
+(** Pretty (multi-line by design; the one-line clause does not name it): a completed record IS the concatenation of the
+    renderings of its tokens ... *)
+Theorem C13_content_pretty : forall o th m sc fl fs, ok_fields fl = Some fs ->
+  format_event_pretty o th (Em m sc fl) = OOk (concat (map render_ptok (ptokens_spec o th m sc fs))).
+Proof. exact pretty_content_tokens. Qed.
+Print Assumptions C13_content_pretty.
+
+(** ... which name the level, every span of the scope INNERMOST FIRST (Pretty's nesting order) each with its fields, every
+    event field with its value in order; the record starts with the indent and ends with the blank line. *)
+Theorem C13_record_names_everything_pretty : forall o th m sc fs,
+  let toks := ptokens_spec o th m sc fs in
+  (o_level o = true -> In (PLevel (e_level m)) toks)
+  /\ filter is_pspan_tok toks = map (pspan_tok o) (rev sc)
+  /\ filter is_pfield_tok toks = pfield_toks true fs
+  /\ exists mid, toks = PStart :: mid ++ [PEnd] /\ ~ In PEnd mid.
+Proof. exact pretty_names_everything. Qed.
+Print Assumptions C13_record_names_everything_pretty.
+
+(** Which spans Pretty walks: the event's own scope (explicit parent first, none for an explicit root, else the current
+    span) like every other formatter — EXCEPT, while the tree has Pretty's own lookup (finding F131), for an explicit
+    root: [Event::parent()] is [None] for it, the lookup falls back to the thread's current span and the record names spans
+    the event is explicitly not in.  The flag is read from pretty.rs on every run; the hypothesis disappears with it. *)
+Theorem C13_pretty_walks_the_event_scope : forall is_root ev cur,
+  (Gen_fmtbuf.pretty_root_falls_back = true -> is_root = false) ->
+  pretty_scope Gen_fmtbuf.pretty_root_falls_back is_root ev cur = ev.
+Proof. intros. apply pretty_scope_is_event_scope. assumption. Qed.
+Print Assumptions C13_pretty_walks_the_event_scope.
+
+Theorem C13_F131_refuted :
+  let cur := [Span (str "req") [[(str "id", str "7")]] (str "app")] in
+  pretty_scope true true [] cur = cur
+  /\ format_event_pretty (Opts false true false false false false false) (Thr [] [])
+       (Em (EMeta 3 (str "app") (str "event e") None None false) (pretty_scope true true [] cur) (FOk (str "message") (str "root event") FNil))
+     = OOk (str "   INFO  root event" ++ [10] ++ str "    in req with id: 7" ++ [10; 10])
+  /\ format_event_pretty (Opts false true false false false false false) (Thr [] [])
+       (Em (EMeta 3 (str "app") (str "event e") None None false) (pretty_scope false true [] cur) (FOk (str "message") (str "root event") FNil))
+     = OOk (str "   INFO  root event" ++ [10; 10]).
+Proof. exact pretty_root_fallback_refuted. Qed.
+Print Assumptions C13_F131_refuted.
 
 Theorem C13_translator_recognised_everything : Gen_fmtbuf.gen_unrecognised = [].
 Proof. reflexivity. Qed.
